@@ -132,6 +132,13 @@ def gen_spec(rng, n_zones=None, allow_fed=True, ext=None, maxtime=None, grid=Tru
         spec['gifts'].append({'src': [a[1], a[2]], 'dst': [b[1], b[2]],
                               'amount': rng.choice(['2.5', '1.0', '4.0', '0.5', '3.25']),
                               'inc_src': rng.random() < 0.5, 'inc_dst': rng.random() < 0.5})
+        if rng.random() < 0.4:
+            # the SAME amount variable of the same source sector is sent to a second recipient
+            c = rng.choice(hasF)
+            if c != a and (c[0] == a[0] or (ext and cross)):
+                spec['gifts'].append({'src': [a[1], a[2]], 'dst': [c[1], c[2]], 'amount': None,
+                                      'same_var_as': len(spec['gifts']) - 1,
+                                      'inc_src': spec['gifts'][-1]['inc_src'], 'inc_dst': rng.random() < 0.5})
     if ext and cross and nz > 1:
         # cross-zone imports: supplier country's firm must be multi-output
         cands = [(z['cur'], c) for z in zones for c in z['countries'] if c['role'] != 'central']
@@ -141,7 +148,12 @@ def gen_spec(rng, n_zones=None, allow_fed=True, ext=None, maxtime=None, grid=Tru
                 continue
             if any(i['market'] == a['key'] and i['supplier'] == b['key'] for i in spec['imports']):
                 continue
-            spec['imports'].append({'market': a['key'], 'supplier': b['key'], 'mu': rng.choice([0.05, 0.1, 0.2])})
+            imp = {'market': a['key'], 'supplier': b['key'], 'mu': rng.choice([0.05, 0.1, 0.2])}
+            if rng.random() < 0.35 and not any(i['market'] == a['key'] for i in spec['imports']):
+                # the FOREIGN firm is the residual supplier; the home firm gets the explicit allocation rule
+                imp['residual_foreign'] = True
+                imp['home_share'] = rng.choice([0.5, 0.75, 0.875])
+            spec['imports'].append(imp)
     return spec
 
 
@@ -160,6 +172,7 @@ class Built(object):
         self.names_handed = []   # (alias or name, sector, local) requested before main()
         self.error = None
         self.V = None
+        self.order = {}
 
 
 def linear_extension(rng, steps):
@@ -176,8 +189,19 @@ def linear_extension(rng, steps):
     return order
 
 
-def build(spec, model=None, order_seed=None, codes=None, ckey_map=None, solve=True, ext_first=None,
-          max_iter=3000, unused_ext=False, tol=None):
+def build(spec, model=None, **kw):
+    """Wrapper: an exception of the real constructors / wiring calls becomes Built.error (never a monitor crash)."""
+    holder = Built()
+    try:
+        return _build(spec, model=model, holder=holder, **kw)
+    except Exception as e:
+        holder.error = e
+        holder.construction_failed = True
+        return holder
+
+
+def _build(spec, model=None, holder=None, order_seed=None, codes=None, ckey_map=None, solve=True, ext_first=None,
+          max_iter=3000, unused_ext=False, tol=None, order_perm=None):
     """Build (and solve) the model described by spec with the REAL classes.
 
     order_seed: None = canonical declaration order; int = a random linear extension per country.
@@ -191,7 +215,7 @@ def build(spec, model=None, order_seed=None, codes=None, ckey_map=None, solve=Tr
                                                FixedMarginBusinessMultiOutput, TaxFlow, MoneyMarket, DepositMarket,
                                                GoldStandardGovernment)
     from sfc_models.external import ExternalSector
-    b = Built()
+    b = holder if holder is not None else Built()
     own_model = model is None
     mod = Model() if own_model else model
     b.model = mod
@@ -271,7 +295,14 @@ def build(spec, model=None, order_seed=None, codes=None, ckey_map=None, solve=Tr
                                                                     labour_input_name=code(ck, 'LAB'),
                                                                     market_list=[S[(ck, 'GOOD')]]))))
                     wiring.append(lambda ck=ck: S[(ck, 'GOOD')].AddSupplier(S[(ck, 'BUS')]))
-            for name, deps, fn in linear_extension(rng, steps):
+            if order_perm and ck in order_perm:
+                by_name = {st[0]: st for st in steps}
+                ordered = [by_name[n] for n in order_perm[ck]]
+                assert len(ordered) == len(steps)
+            else:
+                ordered = linear_extension(rng, steps)
+            b.order.setdefault(ck, [st[0] for st in ordered])
+            for name, deps, fn in ordered:
                 fn()
     if own_model and (spec['ext'] or unused_ext) and not ext_first:
         ExternalSector(mod)
@@ -333,8 +364,11 @@ def build(spec, model=None, order_seed=None, codes=None, ckey_map=None, solve=Tr
     for i, gf in enumerate(spec['gifts']):
         src = sector_for(b, gf['src'])
         dst = sector_for(b, gf['dst'])
-        var = 'GIFT%d' % i
-        src.AddVariable(var, 'A gift', gf['amount'])
+        if gf.get('same_var_as') is not None:
+            var = 'GIFT%d' % gf['same_var_as']
+        else:
+            var = 'GIFT%d' % i
+            src.AddVariable(var, 'A gift', gf['amount'])
         mod.RegisterCashFlow(src, dst, var, is_income_source=gf['inc_src'], is_income_dest=gf['inc_dst'])
         b.flows.append({'kind': 'gift', 'src': src, 'dst': dst, 'var': var, 'spec': gf})
     mod.MaxTime = spec['maxtime']
@@ -370,6 +404,14 @@ def add_import(b, imp, code, ckey_map):
     market = b.sectors[(mk, 'GOOD')]
     firm = b.sectors[(sk, 'BUS')]
     hh = b.sectors[(mk, 'HH')]
+    if imp.get('residual_foreign'):
+        home = b.sectors[(mk, 'BUS')]
+        market.AddVariable('HS', 'Share of demand supplied at home', repr(imp['home_share']))
+        market.AddSupplier(home, 'HS*DEM_' + market.Code)
+        market.AddSupplier(firm)          # no equation: the foreign firm is the residual supplier
+        firm.AddMarket(market)
+        b.flows.append({'kind': 'import', 'market': market, 'supplier': firm, 'mu': None, 'spec': imp})
+        return
     if 'MU' not in market.EquationBlock:
         market.AddVariable('MU', 'Propensity to import', repr(imp['mu']))
         muvar = 'MU'
